@@ -185,6 +185,7 @@ def check(ctx: C.Ctx, cases, with_rc4: bool = True) -> None:
         K.add_unpad(ctx, add)
         K.add_objkeys(ctx, add)
         K.add_spec_select(ctx, add)
+        K.add_kdf(ctx, add)
 
     # ---- documents
     for ci, case in enumerate(cases):
